@@ -1,6 +1,9 @@
 import NurbsVerif.Lemmas.Hull
 import NurbsVerif.Lemmas.SurfLift
 import NurbsVerif.Lemmas.HullRat
+import NurbsVerif.Lemmas.AssembleHull
+import NurbsVerif.Lemmas.AssembleEnds
+import NurbsVerif.Lemmas.AssembleWF
 
 /-!
 # C18  Shapes stay inside the hull of their control points
@@ -223,5 +226,234 @@ example : (boundingBox (([[0,0,1],[2,0,2],[0,1,1],[3,3,3],[0,0,1],[4,0,2],[0,2,1
     simp only [List.length_cons, List.length_nil] at hi
     rcases i with _|_|_|_|_|_|_|_|i <;> simp [ptsGet, List.getD]
     omega
+
+/-! ## End-to-end statements: the functions the library calls, every parameter of the closed domain
+
+`curvePoint` / `surfacePoint` / `volumePoint` are "linear span search, then evaluation on the span
+found" – exactly what `evaluate_single` runs.  Hypotheses: a well-formed object (`CurveWF`, `SurfWF`,
+for volumes one `KvWF` per direction: sorted knots of the right number, at least `degree+1` control
+points, last span of the domain non-empty; net of the right size, points of one dimension) and a
+parameter (tuple) in the closed domain `[U_p, U_n]` – INCLUDING the right end, where the search
+returns the last span and the parameter is that span's right end. -/
+
+/-- **Curves lie inside the reported bounding box** – `evaluate_single(u)` for every `u` of the
+    closed domain, every coordinate. -/
+theorem curve_in_bounding_box (p d : ℕ) (Ul : List K) (P : List (List K)) (hC : CurveWF p d Ul P) (u : K)
+    (h1 : fnOf Ul p ≤ u) (h2 : u ≤ fnOf Ul P.length) (j : ℕ) (hj : j < d) :
+    (boundingBox P).1.getD j 0 ≤ (curvePoint p (fnOf Ul) P u).getD j 0 ∧
+      (curvePoint p (fnOf Ul) P u).getD j 0 ≤ (boundingBox P).2.getD j 0 :=
+  curvePoint_in_boundingBox p (fnOf Ul) P u d j hC.knotsOk hC.net h1 h2 hj
+
+/-- **Curves lie in the convex hull of the active control points** (strong convex hull property, every
+    separating direction): for every `u` of the closed domain and every linear functional `ℓ`, `ℓ` of
+    the evaluated point lies between any bounds of `ℓ` on the `p+1` control points
+    `P_{k-p}, …, P_k`, `k` the span the search finds. -/
+theorem curve_in_hull (p d : ℕ) (Ul : List K) (P : List (List K)) (hC : CurveWF p d Ul P) (u : K)
+    (h1 : fnOf Ul p ≤ u) (h2 : u ≤ fnOf Ul P.length) (A : ℕ → K) (lo hi : K)
+    (hlo : ∀ r, r ≤ p → lo ≤ ∑ l ∈ range d, A l * (ptsGet P (findSpanLinear p (fnOf Ul) P.length u - p + r)).getD l 0)
+    (hhi : ∀ r, r ≤ p → ∑ l ∈ range d, A l * (ptsGet P (findSpanLinear p (fnOf Ul) P.length u - p + r)).getD l 0 ≤ hi) :
+    lo ≤ ∑ l ∈ range d, A l * (curvePoint p (fnOf Ul) P u).getD l 0 ∧
+      ∑ l ∈ range d, A l * (curvePoint p (fnOf Ul) P u).getD l 0 ≤ hi :=
+  curvePoint_in_hull p (fnOf Ul) P u d hC.knotsOk hC.net h1 h2 A lo hi hlo hhi
+
+/-- **Rational curves lie inside the reported bounding box** (the box of the Cartesian control points),
+    all weights positive, every parameter of the closed domain. -/
+theorem rational_curve_in_bounding_box (p d : ℕ) (Ul : List K) (Pw : List (List K)) (hC : CurveWF p (d+1) Ul Pw)
+    (hwt : ∀ i, i < Pw.length → 0 < (ptsGet Pw i).getD d 0) (u : K)
+    (h1 : fnOf Ul p ≤ u) (h2 : u ≤ fnOf Ul Pw.length) (j : ℕ) (hj : j < d) :
+    (boundingBox (Pw.map project)).1.getD j 0 ≤ (project (curvePoint p (fnOf Ul) Pw u)).getD j 0 ∧
+      (project (curvePoint p (fnOf Ul) Pw u)).getD j 0 ≤ (boundingBox (Pw.map project)).2.getD j 0 :=
+  curvePoint_rational_in_boundingBox p (fnOf Ul) Pw u d j hC.knotsOk hC.net h1 h2 hwt hj
+
+/-- **Rational curves lie in the hull of the active Cartesian control points**; the weight of the
+    evaluated point is positive (weights of the active points positive). -/
+theorem rational_curve_in_hull (p d : ℕ) (Ul : List K) (Pw : List (List K)) (hC : CurveWF p (d+1) Ul Pw) (u : K)
+    (h1 : fnOf Ul p ≤ u) (h2 : u ≤ fnOf Ul Pw.length)
+    (hwt : ∀ r, r ≤ p → 0 < (ptsGet Pw (findSpanLinear p (fnOf Ul) Pw.length u - p + r)).getD d 0) (A : ℕ → K) (lo hi : K)
+    (hlo : ∀ r, r ≤ p → lo ≤ ∑ l ∈ range d, A l *
+      (project (ptsGet Pw (findSpanLinear p (fnOf Ul) Pw.length u - p + r))).getD l 0)
+    (hhi : ∀ r, r ≤ p → ∑ l ∈ range d, A l *
+      (project (ptsGet Pw (findSpanLinear p (fnOf Ul) Pw.length u - p + r))).getD l 0 ≤ hi) :
+    0 < (curvePoint p (fnOf Ul) Pw u).getD d 0 ∧
+    lo ≤ ∑ l ∈ range d, A l * (project (curvePoint p (fnOf Ul) Pw u)).getD l 0 ∧
+      ∑ l ∈ range d, A l * (project (curvePoint p (fnOf Ul) Pw u)).getD l 0 ≤ hi :=
+  curvePoint_rational_in_hull p (fnOf Ul) Pw u d hC.knotsOk hC.net h1 h2 hwt A lo hi hlo hhi
+
+/-- **A clamped curve starts at its first control point**: if the knots `U_1 = … = U_p` coincide
+    (`U_0` is never read; "the first `p+1` knots are equal" implies this) and the first span is
+    non-empty, `evaluate_single(U_p)` is `P_0`. -/
+theorem curve_starts_at_first_control_point (p d : ℕ) (Ul : List K) (P : List (List K)) (hC : CurveWF p d Ul P)
+    (hfirst : fnOf Ul p < fnOf Ul (p+1)) (hcl : ∀ i, 1 ≤ i → i ≤ p → fnOf Ul i = fnOf Ul p) (j : ℕ) :
+    (curvePoint p (fnOf Ul) P (fnOf Ul p)).getD j 0 = (ptsGet P 0).getD j 0 :=
+  curvePoint_start p (fnOf Ul) P d j hC.mono hC.pn hC.net hfirst hcl
+
+/-- **A clamped curve ends at its last control point**: if the knots `U_n = … = U_{n+p-1}` coincide
+    (`n` control points; "the last `p+1` knots are equal" implies this), `evaluate_single(U_n)` – the
+    right end of the domain, evaluated on the last span – is `P_{n-1}`. -/
+theorem curve_ends_at_last_control_point (p d : ℕ) (Ul : List K) (P : List (List K)) (hC : CurveWF p d Ul P)
+    (hcl : ∀ i, P.length ≤ i → i < P.length + p → fnOf Ul i = fnOf Ul P.length) (j : ℕ) :
+    (curvePoint p (fnOf Ul) P (fnOf Ul P.length)).getD j 0 = (ptsGet P (P.length - 1)).getD j 0 :=
+  curvePoint_end p (fnOf Ul) P d j hC.knotsOk hC.net hcl
+
+/-- **Surfaces lie inside the reported bounding box**, every `(u, v)` of the closed domain. -/
+theorem surface_in_bounding_box (d : ℕ) (S : Shape K) (hS : SurfWF d S) (u v : K)
+    (hu1 : fnOf (S.kv 0) (S.deg 0) ≤ u) (hu2 : u ≤ fnOf (S.kv 0) (S.size 0))
+    (hv1 : fnOf (S.kv 1) (S.deg 1) ≤ v) (hv2 : v ≤ fnOf (S.kv 1) (S.size 1)) (j : ℕ) (hj : j < d) :
+    (boundingBox S.net).1.getD j 0 ≤ (surfEval S u v).getD j 0 ∧
+      (surfEval S u v).getD j 0 ≤ (boundingBox S.net).2.getD j 0 :=
+  surfacePoint_in_boundingBox _ _ _ _ _ _ S.net u v d j hS.dir0.knotsOk hS.dir1.knotsOk hS.netlen hS.net hu1 hu2 hv1 hv2 hj
+
+/-- **Surfaces lie in the convex hull of the `(pu+1)(pv+1)` active control points** (spans found by
+    the search), every `(u, v)` of the closed domain, every linear functional. -/
+theorem surface_in_hull (d : ℕ) (S : Shape K) (hS : SurfWF d S) (u v : K)
+    (hu1 : fnOf (S.kv 0) (S.deg 0) ≤ u) (hu2 : u ≤ fnOf (S.kv 0) (S.size 0))
+    (hv1 : fnOf (S.kv 1) (S.deg 1) ≤ v) (hv2 : v ≤ fnOf (S.kv 1) (S.size 1)) (A : ℕ → K) (lo hi : K)
+    (hlo : ∀ a b, a ≤ S.deg 0 → b ≤ S.deg 1 → lo ≤ ∑ l ∈ range d, A l *
+      (ptsGet S.net (findSpanLinear (S.deg 1) (fnOf (S.kv 1)) (S.size 1) v - S.deg 1 + b
+        + S.size 1 * (findSpanLinear (S.deg 0) (fnOf (S.kv 0)) (S.size 0) u - S.deg 0 + a))).getD l 0)
+    (hhi : ∀ a b, a ≤ S.deg 0 → b ≤ S.deg 1 → ∑ l ∈ range d, A l *
+      (ptsGet S.net (findSpanLinear (S.deg 1) (fnOf (S.kv 1)) (S.size 1) v - S.deg 1 + b
+        + S.size 1 * (findSpanLinear (S.deg 0) (fnOf (S.kv 0)) (S.size 0) u - S.deg 0 + a))).getD l 0 ≤ hi) :
+    lo ≤ ∑ l ∈ range d, A l * (surfEval S u v).getD l 0 ∧ ∑ l ∈ range d, A l * (surfEval S u v).getD l 0 ≤ hi :=
+  surfacePoint_in_hull _ _ _ _ _ _ S.net u v d hS.dir0.knotsOk hS.dir1.knotsOk hS.netlen hS.net hu1 hu2 hv1 hv2
+    A lo hi hlo hhi
+
+/-- **Rational surfaces lie inside the reported bounding box** (all weights positive). -/
+theorem rational_surface_in_bounding_box (d : ℕ) (S : Shape K) (hS : SurfWF (d+1) S)
+    (hwt : ∀ i, i < S.net.length → 0 < (ptsGet S.net i).getD d 0) (u v : K)
+    (hu1 : fnOf (S.kv 0) (S.deg 0) ≤ u) (hu2 : u ≤ fnOf (S.kv 0) (S.size 0))
+    (hv1 : fnOf (S.kv 1) (S.deg 1) ≤ v) (hv2 : v ≤ fnOf (S.kv 1) (S.size 1)) (j : ℕ) (hj : j < d) :
+    (boundingBox (S.net.map project)).1.getD j 0 ≤ (project (surfEval S u v)).getD j 0 ∧
+      (project (surfEval S u v)).getD j 0 ≤ (boundingBox (S.net.map project)).2.getD j 0 :=
+  surfacePoint_rational_in_boundingBox _ _ _ _ _ _ S.net u v d j hS.dir0.knotsOk hS.dir1.knotsOk hS.netlen hS.net
+    hu1 hu2 hv1 hv2 hwt hj
+
+/-- **Rational surfaces lie in the hull of the active Cartesian control points**; positive weight. -/
+theorem rational_surface_in_hull (d : ℕ) (S : Shape K) (hS : SurfWF (d+1) S) (u v : K)
+    (hu1 : fnOf (S.kv 0) (S.deg 0) ≤ u) (hu2 : u ≤ fnOf (S.kv 0) (S.size 0))
+    (hv1 : fnOf (S.kv 1) (S.deg 1) ≤ v) (hv2 : v ≤ fnOf (S.kv 1) (S.size 1))
+    (hwt : ∀ a b, a ≤ S.deg 0 → b ≤ S.deg 1 → 0 <
+      (ptsGet S.net (findSpanLinear (S.deg 1) (fnOf (S.kv 1)) (S.size 1) v - S.deg 1 + b
+        + S.size 1 * (findSpanLinear (S.deg 0) (fnOf (S.kv 0)) (S.size 0) u - S.deg 0 + a))).getD d 0)
+    (A : ℕ → K) (lo hi : K)
+    (hlo : ∀ a b, a ≤ S.deg 0 → b ≤ S.deg 1 → lo ≤ ∑ l ∈ range d, A l *
+      (project (ptsGet S.net (findSpanLinear (S.deg 1) (fnOf (S.kv 1)) (S.size 1) v - S.deg 1 + b
+        + S.size 1 * (findSpanLinear (S.deg 0) (fnOf (S.kv 0)) (S.size 0) u - S.deg 0 + a)))).getD l 0)
+    (hhi : ∀ a b, a ≤ S.deg 0 → b ≤ S.deg 1 → ∑ l ∈ range d, A l *
+      (project (ptsGet S.net (findSpanLinear (S.deg 1) (fnOf (S.kv 1)) (S.size 1) v - S.deg 1 + b
+        + S.size 1 * (findSpanLinear (S.deg 0) (fnOf (S.kv 0)) (S.size 0) u - S.deg 0 + a)))).getD l 0 ≤ hi) :
+    0 < (surfEval S u v).getD d 0 ∧
+    lo ≤ ∑ l ∈ range d, A l * (project (surfEval S u v)).getD l 0 ∧
+      ∑ l ∈ range d, A l * (project (surfEval S u v)).getD l 0 ≤ hi :=
+  surfacePoint_rational_in_hull _ _ _ _ _ _ S.net u v d hS.dir0.knotsOk hS.dir1.knotsOk hS.netlen hS.net hu1 hu2 hv1 hv2
+    hwt A lo hi hlo hhi
+
+/-- **Corners of a clamped surface are the corner control points**: for knot vectors clamped in both
+    directions (`ClampedOk`: `U_1 = … = U_p`, `U_n = … = U_{n+p-1}`, first span non-empty) and each of
+    the four corners (`eu`, `ev` = right end of the direction or not), `evaluate_single` at the corner
+    is the control point `(0 | size_u-1, 0 | size_v-1)` in the layout `v + size_v·u`. -/
+theorem surface_corners (d : ℕ) (S : Shape K) (hS : SurfWF d S)
+    (hcu : ClampedOk (S.deg 0) (fnOf (S.kv 0)) (S.size 0)) (hcv : ClampedOk (S.deg 1) (fnOf (S.kv 1)) (S.size 1))
+    (eu ev : Bool) (j : ℕ) :
+    (surfEval S (if eu then fnOf (S.kv 0) (S.size 0) else fnOf (S.kv 0) (S.deg 0))
+        (if ev then fnOf (S.kv 1) (S.size 1) else fnOf (S.kv 1) (S.deg 1))).getD j 0
+      = (ptsGet S.net ((if ev then S.size 1 - 1 else 0) + S.size 1 * (if eu then S.size 0 - 1 else 0))).getD j 0 :=
+  surfacePoint_corner _ _ _ _ _ _ S.net d j hS.dir0.knotsOk hS.dir1.knotsOk hcu hcv hS.netlen hS.net eu ev
+
+/-- **Volumes lie inside the reported bounding box**, every `(u, v, w)` of the closed domain
+    (well-formed knot vector per direction, net of `su·sv·sw` points of dimension `d`). -/
+theorem volume_in_bounding_box (pu pv pw d : ℕ) (Uu Uv Uw : List K) (su sv sw : ℕ) (P : List (List K))
+    (hUu : KvWF pu Uu su) (hUv : KvWF pv Uv sv) (hUw : KvWF pw Uw sw) (hlen : P.length = su * sv * sw) (hP : NetOk d P)
+    (u v w : K) (hu1 : fnOf Uu pu ≤ u) (hu2 : u ≤ fnOf Uu su) (hv1 : fnOf Uv pv ≤ v) (hv2 : v ≤ fnOf Uv sv)
+    (hw1 : fnOf Uw pw ≤ w) (hw2 : w ≤ fnOf Uw sw) (j : ℕ) (hj : j < d) :
+    (boundingBox P).1.getD j 0 ≤ (volumePoint pu pv pw (fnOf Uu) (fnOf Uv) (fnOf Uw) su sv sw P u v w).getD j 0 ∧
+      (volumePoint pu pv pw (fnOf Uu) (fnOf Uv) (fnOf Uw) su sv sw P u v w).getD j 0 ≤ (boundingBox P).2.getD j 0 :=
+  volumePoint_in_boundingBox pu pv pw _ _ _ su sv sw P u v w d j hUu.knotsOk hUv.knotsOk hUw.knotsOk hlen hP
+    hu1 hu2 hv1 hv2 hw1 hw2 hj
+
+/-- **Volumes lie in the convex hull of the `(pu+1)(pv+1)(pw+1)` active control points**. -/
+theorem volume_in_hull (pu pv pw d : ℕ) (Uu Uv Uw : List K) (su sv sw : ℕ) (P : List (List K))
+    (hUu : KvWF pu Uu su) (hUv : KvWF pv Uv sv) (hUw : KvWF pw Uw sw) (hlen : P.length = su * sv * sw) (hP : NetOk d P)
+    (u v w : K) (hu1 : fnOf Uu pu ≤ u) (hu2 : u ≤ fnOf Uu su) (hv1 : fnOf Uv pv ≤ v) (hv2 : v ≤ fnOf Uv sv)
+    (hw1 : fnOf Uw pw ≤ w) (hw2 : w ≤ fnOf Uw sw) (A : ℕ → K) (lo hi : K)
+    (hlo : ∀ a b c, a ≤ pu → b ≤ pv → c ≤ pw → lo ≤ ∑ l ∈ range d, A l *
+      (ptsGet P (findSpanLinear pv (fnOf Uv) sv v - pv + b + sv * (findSpanLinear pu (fnOf Uu) su u - pu + a
+        + su * (findSpanLinear pw (fnOf Uw) sw w - pw + c)))).getD l 0)
+    (hhi : ∀ a b c, a ≤ pu → b ≤ pv → c ≤ pw → ∑ l ∈ range d, A l *
+      (ptsGet P (findSpanLinear pv (fnOf Uv) sv v - pv + b + sv * (findSpanLinear pu (fnOf Uu) su u - pu + a
+        + su * (findSpanLinear pw (fnOf Uw) sw w - pw + c)))).getD l 0 ≤ hi) :
+    lo ≤ ∑ l ∈ range d, A l * (volumePoint pu pv pw (fnOf Uu) (fnOf Uv) (fnOf Uw) su sv sw P u v w).getD l 0 ∧
+      ∑ l ∈ range d, A l * (volumePoint pu pv pw (fnOf Uu) (fnOf Uv) (fnOf Uw) su sv sw P u v w).getD l 0 ≤ hi :=
+  volumePoint_in_hull pu pv pw _ _ _ su sv sw P u v w d hUu.knotsOk hUv.knotsOk hUw.knotsOk hlen hP
+    hu1 hu2 hv1 hv2 hw1 hw2 A lo hi hlo hhi
+
+/-- **Rational volumes lie inside the reported bounding box** (all weights positive). -/
+theorem rational_volume_in_bounding_box (pu pv pw d : ℕ) (Uu Uv Uw : List K) (su sv sw : ℕ) (Pw : List (List K))
+    (hUu : KvWF pu Uu su) (hUv : KvWF pv Uv sv) (hUw : KvWF pw Uw sw) (hlen : Pw.length = su * sv * sw)
+    (hP : NetOk (d+1) Pw) (hwt : ∀ i, i < Pw.length → 0 < (ptsGet Pw i).getD d 0)
+    (u v w : K) (hu1 : fnOf Uu pu ≤ u) (hu2 : u ≤ fnOf Uu su) (hv1 : fnOf Uv pv ≤ v) (hv2 : v ≤ fnOf Uv sv)
+    (hw1 : fnOf Uw pw ≤ w) (hw2 : w ≤ fnOf Uw sw) (j : ℕ) (hj : j < d) :
+    (boundingBox (Pw.map project)).1.getD j 0
+        ≤ (project (volumePoint pu pv pw (fnOf Uu) (fnOf Uv) (fnOf Uw) su sv sw Pw u v w)).getD j 0 ∧
+      (project (volumePoint pu pv pw (fnOf Uu) (fnOf Uv) (fnOf Uw) su sv sw Pw u v w)).getD j 0
+        ≤ (boundingBox (Pw.map project)).2.getD j 0 :=
+  volumePoint_rational_in_boundingBox pu pv pw _ _ _ su sv sw Pw u v w d j hUu.knotsOk hUv.knotsOk hUw.knotsOk hlen hP
+    hu1 hu2 hv1 hv2 hw1 hw2 hwt hj
+
+/-- **Rational volumes lie in the hull of the active Cartesian control points**; positive weight. -/
+theorem rational_volume_in_hull (pu pv pw d : ℕ) (Uu Uv Uw : List K) (su sv sw : ℕ) (Pw : List (List K))
+    (hUu : KvWF pu Uu su) (hUv : KvWF pv Uv sv) (hUw : KvWF pw Uw sw) (hlen : Pw.length = su * sv * sw)
+    (hP : NetOk (d+1) Pw)
+    (u v w : K) (hu1 : fnOf Uu pu ≤ u) (hu2 : u ≤ fnOf Uu su) (hv1 : fnOf Uv pv ≤ v) (hv2 : v ≤ fnOf Uv sv)
+    (hw1 : fnOf Uw pw ≤ w) (hw2 : w ≤ fnOf Uw sw)
+    (hwt : ∀ a b c, a ≤ pu → b ≤ pv → c ≤ pw → 0 <
+      (ptsGet Pw (findSpanLinear pv (fnOf Uv) sv v - pv + b + sv * (findSpanLinear pu (fnOf Uu) su u - pu + a
+        + su * (findSpanLinear pw (fnOf Uw) sw w - pw + c)))).getD d 0)
+    (A : ℕ → K) (lo hi : K)
+    (hlo : ∀ a b c, a ≤ pu → b ≤ pv → c ≤ pw → lo ≤ ∑ l ∈ range d, A l *
+      (project (ptsGet Pw (findSpanLinear pv (fnOf Uv) sv v - pv + b + sv * (findSpanLinear pu (fnOf Uu) su u - pu + a
+        + su * (findSpanLinear pw (fnOf Uw) sw w - pw + c))))).getD l 0)
+    (hhi : ∀ a b c, a ≤ pu → b ≤ pv → c ≤ pw → ∑ l ∈ range d, A l *
+      (project (ptsGet Pw (findSpanLinear pv (fnOf Uv) sv v - pv + b + sv * (findSpanLinear pu (fnOf Uu) su u - pu + a
+        + su * (findSpanLinear pw (fnOf Uw) sw w - pw + c))))).getD l 0 ≤ hi) :
+    0 < (volumePoint pu pv pw (fnOf Uu) (fnOf Uv) (fnOf Uw) su sv sw Pw u v w).getD d 0 ∧
+    lo ≤ ∑ l ∈ range d, A l * (project (volumePoint pu pv pw (fnOf Uu) (fnOf Uv) (fnOf Uw) su sv sw Pw u v w)).getD l 0 ∧
+      ∑ l ∈ range d, A l * (project (volumePoint pu pv pw (fnOf Uu) (fnOf Uv) (fnOf Uw) su sv sw Pw u v w)).getD l 0 ≤ hi :=
+  volumePoint_rational_in_hull pu pv pw _ _ _ su sv sw Pw u v w d hUu.knotsOk hUv.knotsOk hUw.knotsOk hlen hP
+    hu1 hu2 hv1 hv2 hw1 hw2 hwt A lo hi hlo hhi
+
+/-- **Corners of a clamped volume are the corner control points** (eight corners, layout
+    `v + size_v·(u + size_u·w)`). -/
+theorem volume_corners (pu pv pw d : ℕ) (Uu Uv Uw : List K) (su sv sw : ℕ) (P : List (List K))
+    (hUu : KvWF pu Uu su) (hUv : KvWF pv Uv sv) (hUw : KvWF pw Uw sw) (hlen : P.length = su * sv * sw) (hP : NetOk d P)
+    (hcu : ClampedOk pu (fnOf Uu) su) (hcv : ClampedOk pv (fnOf Uv) sv) (hcw : ClampedOk pw (fnOf Uw) sw)
+    (eu ev ew : Bool) (j : ℕ) :
+    (volumePoint pu pv pw (fnOf Uu) (fnOf Uv) (fnOf Uw) su sv sw P
+        (if eu then fnOf Uu su else fnOf Uu pu) (if ev then fnOf Uv sv else fnOf Uv pv)
+        (if ew then fnOf Uw sw else fnOf Uw pw)).getD j 0
+      = (ptsGet P ((if ev then sv - 1 else 0) + sv * ((if eu then su - 1 else 0) + su * (if ew then sw - 1 else 0)))).getD j 0 :=
+  volumePoint_corner pu pv pw _ _ _ su sv sw P d j hUu.knotsOk hUv.knotsOk hUw.knotsOk hcu hcv hcw hlen hP eu ev ew
+
+/-! ### non-vacuity of the end-to-end hypotheses -/
+
+/-- a clamped quadratic curve with one interior knot … -/
+example : CurveWF 2 2 ([0,0,0,1/2,1,1,1] : List ℚ) [[0,0],[1,2],[2,0],[3,1]] where
+  mono := mono_of_pairwise _ (by decide +kernel)
+  len := by simp
+  pn := by simp
+  last := by decide +kernel
+  net := by intro pt hpt; simp at hpt; rcases hpt with h | h | h | h <;> simp [h]
+
+/-- … is clamped at both ends in the sense of the end-point theorems … -/
+example : ClampedOk 2 (fnOf ([0,0,0,1/2,1,1,1] : List ℚ)) 4 where
+  start := by intro i h1 h2; obtain rfl | rfl : i = 1 ∨ i = 2 := by omega
+              all_goals decide +kernel
+  stop := by intro i h1 h2; obtain rfl | rfl : i = 4 ∨ i = 5 := by omega
+             all_goals decide +kernel
+  first := by decide +kernel
+
+/-- … and `evaluate_single` at the right end of the domain is the last control point -/
+example : curvePoint 2 (fnOf ([0,0,0,1/2,1,1,1] : List ℚ)) [[0,0],[1,2],[2,0],[3,1]] 1 = [3, 1] := by decide +kernel
+
 
 end C18
